@@ -24,8 +24,8 @@ def _worker(task):
     for item in plan:
         kind = item["kind"]
         hl = item.get("helper", "all")
-        args = strategy_args(*item["strat"])
-        name = "%s|%s|%s" % (kind, strategy_name(args), hl)
+        args = strategy_args(*item["strat"], **({"log_level": "DEBUG"} if item.get("debug") else {}))
+        name = "%s|%s|%s%s" % (kind, strategy_name(args), hl, "|debug" if item.get("debug") else "")
         extra = dict(item.get("extra", {}))
         if generic:
             gs = item.get("gstrat")
